@@ -75,6 +75,9 @@ TWO_COMBOS = [["keep", True], ["delete", False]]
 # ======================================================================================
 # decorated inputs
 # ======================================================================================
+_BAD_LISTS_DONE = set()
+
+
 def half_points(m):
     c = m.coords
     out = []
@@ -438,6 +441,15 @@ def run_iv(m, var, acc):
         [[hp[1], hp[1]]],                          # empty
         [[hp[2], hp[1]]],                          # reversed
     ]
+    # every list of two or three intervals over the half grid that is NOT increasing and disjoint (once per
+    # grid: whether a list is acceptable does not depend on the tables)
+    if tuple(hp) not in _BAD_LISTS_DONE and len(hp) <= 5:
+        _BAD_LISTS_DONE.add(tuple(hp))
+        ivals = [[hp[i], hp[j]] for i in range(len(hp)) for j in range(i + 1, len(hp))]
+        for k in (2, 3):
+            for combo in itertools.product(ivals, repeat=k):
+                if any(combo[i + 1][0] < combo[i][1] for i in range(k - 1)):
+                    bad_lists.append([list(x) for x in combo])
     for ivs in bad_lists:
         for op in ("keep", "delete"):
             t2 = tc.copy()
